@@ -69,7 +69,103 @@ func Load(root, module string, patterns []string) (*Prog, error) {
 	if err != nil {
 		return nil, err
 	}
+	p.synthesizeAutos()
 	return p, nil
+}
+
+func callsAppend(fn *ssa.Function, depth int) bool {
+	for _, b := range fn.Blocks {
+		for _, in := range b.Instrs {
+			var cc *ssa.CallCommon
+			switch i := in.(type) {
+			case *ssa.Call:
+				cc = &i.Call
+			case *ssa.Defer:
+				cc = &i.Call
+			}
+			if cc != nil {
+				if f := cc.StaticCallee(); f != nil && f.String() == historyAppendKey {
+					return true
+				}
+			}
+		}
+	}
+	return false
+}
+
+// synthesizeAutos creates thin contracts (`claims inverse`) for every function of a package
+// that contains a History.Append call, unless the function already has a contract.
+func (p *Prog) synthesizeAutos() {
+	for _, a := range p.Contracts.Autos {
+		skip := map[string]bool{}
+		for _, s := range a.Skip {
+			skip[s] = true
+		}
+		for fn := range ssautil.AllFunctions(p.SSA) {
+			if fn.Pkg == nil || fn.Pkg.Pkg.Path() != a.PkgPath || fn.Parent() != nil || fn.Blocks == nil || fn.Synthetic != "" {
+				continue
+			}
+			if !callsAppend(fn, 0) {
+				// Append calls may sit in function literals that the function calls directly
+				found := false
+				for _, af := range fn.AnonFuncs {
+					if callsAppend(af, 1) {
+						found = true
+					}
+				}
+				if !found {
+					continue
+				}
+			}
+			key := fn.String()
+			if skip[fn.Name()] {
+				continue
+			}
+			if c, ok := p.Contracts.ByKey[key]; ok {
+				for _, cl := range a.Claims {
+					c.Claims[cl] = true
+				}
+				c.Props = appendMissing(c.Props, a.Props)
+				continue
+			}
+			c := &Contract{Key: key, PkgPath: a.PkgPath, Header: "auto " + shortKey(key), Loops: map[int][]*Clause{}, Closures: map[int]*Contract{},
+				Claims: map[string]bool{}, Inline: map[string]bool{}, File: a.File, Line: a.Line, Props: append([]string{}, a.Props...), Auto: true}
+			for _, cl := range a.Claims {
+				c.Claims[cl] = true
+			}
+			for _, in := range a.Inline {
+				c.Inline[in] = true
+			}
+			seen := map[string]int{}
+			for i, prm := range fn.Params {
+				n := prm.Name()
+				if n == "" || n == "_" {
+					n = fmt.Sprintf("p%d", i)
+				}
+				seen[n]++
+				if seen[n] > 1 {
+					n = fmt.Sprintf("%s_%d", n, i)
+				}
+				c.Params = append(c.Params, n)
+			}
+			p.Contracts.ByKey[key] = c
+		}
+	}
+}
+
+func appendMissing(dst, src []string) []string {
+	for _, s := range src {
+		found := false
+		for _, d := range dst {
+			if d == s {
+				found = true
+			}
+		}
+		if !found {
+			dst = append(dst, s)
+		}
+	}
+	return dst
 }
 
 func (p *Prog) typesPkg(path string) *types.Package {
